@@ -242,6 +242,29 @@ def run_case(spec):
                 else:
                     res['nontrivial'].append([sub_cls, order_cls, none_cls, tagsl,
                                               min(overwrites, 3), rd_cls])
+        # ---- a save asked for an iteration the dictionary does not hold (inside
+        # the range of the ones it holds): refused or ignored, never filed with the
+        # data of a neighbouring iteration
+        have = sorted({k[0] for k in model})
+        gaps = [i for i in range(min(have) + 1, max(have)) if i not in have] if have else []
+        if gaps:
+            a = int(gaps[len(gaps) // 2])
+            lo_, hi_ = max(i for i in have if i < a), min(i for i in have if i > a)
+            d2 = {'it': [lo_, hi_], 't': [0.5 * lo_, 0.5 * hi_],
+                  'probe_var': [np.full((2, 2, 2), float(lo_)), np.full((2, 2, 2), float(hi_))]}
+            res['observations'] += 1
+            try:
+                with common.Quiet():
+                    A.save_data(param, d2, it=[a], vars=['probe_var'])
+            except Exception:
+                pass
+            with common.Quiet():
+                back = A.read_data(param, it=[a], vars=['probe_var'])
+            if back.get('probe_var', [None])[0] is not None:
+                common.add_violation(res, "save_data filed data under an iteration the dictionary does not hold",
+                                     {"asked": a, "held": [lo_, hi_]})
+            else:
+                res['nontrivial'].append(['absent-iteration save refused', tagsl])
     finally:
         shutil.rmtree(root, ignore_errors=True)
     return res
